@@ -15,7 +15,7 @@ from vf.xmodel import Schema, Rop, build_api, build_loader
 
 SHARDS = {'quick': 16, 'thorough': 32}
 TIMEOUT = {'quick': 900, 'thorough': 3600}
-MUST_HIT = ['Cell.where_eq-identifier-twin', 'Cell.two-classes', 'Cell.read-all-spellings', 'Cell.serialize', 'Cell.where_eq',
+MUST_HIT = ['Cell.where_eq-two-spellings-in-one-filter', 'Cell.where_eq-identifier-twin', 'Cell.two-classes', 'Cell.read-all-spellings', 'Cell.serialize', 'Cell.where_eq',
             'Referential.write-rejected', 'Referential.ctor-keyword', 'Referential.loaded-instance', 'ClassName.spellings',
             'Cell.referred-identifier-written', 'ClassName.whole-model-after-spellings', 'Cell.where_eq-after-delete']
 MUST_REACH = ['xtuml/meta.py:Class.__getattr__', 'xtuml/meta.py:Class.__setattr__',
@@ -119,6 +119,18 @@ def observe(ctx, m, inst, declared, ty, cell, sps, keep):
                                'filter %s=%r does not match (cell %r)' % (sp, cell, cell))
         if inst in m.select_many('Thng', xtuml.where_eq(**{sp: other})):
             raise Mismatch('filter/matches-other-value', 'filter %s=%r matches, cell %r' % (sp, other, cell))
+    # one filter that names the attribute under two spellings: both conditions address the one stored value
+    if len(sps) >= 2:
+        ctx.hit('Cell.where_eq-two-spellings-in-one-filter')
+        for s1, s2 in ((sps[0], sps[-1]), (sps[-1], sps[0]), (sps[1], sps[0])):
+            if s1 == s2:
+                continue
+            for f1, f2, want in ((cell, cell, True), (cell, other, False), (other, cell, False)):
+                for flt in (xtuml.where_eq(**{s1: f1, s2: f2}), {s1: f1, s2: f2}):
+                    if (inst in m.select_many('Thng', flt)) != want:
+                        raise Mismatch('filter/two-spellings-in-one-filter',
+                                       'filter %s=%r, %s=%r %s (cell %r)'
+                                       % (s1, f1, s2, f2, 'does not match' if want else 'matches', cell))
     # a second instance holding the same identifying values (identifiers are declared, not enforced):
     # a filter that covers the whole identifier matches both under every spelling of either name
     ctx.hit('Cell.where_eq-identifier-twin')
